@@ -232,6 +232,7 @@ func checkC18(p *Program, r *Report) {
 		}
 		r.Check(okExit, "C18.R1", "main|os.Exit(runner result)", p.Pos(mainFn.Pos()), "the process exit code is the runner's result", "main does not pass the runner's result to os.Exit")
 		c18Dispatch(p, r, mainFn, runner)
+		c18Worlds(p, r, sp, mainFn, runner)
 	}
 
 	// R2: arguments of Execute
@@ -810,4 +811,242 @@ func c18Dispatch(p *Program, r *Report, mainFn, runner *ssa.Function) {
 	if len(others) == 0 {
 		r.OK("C18.R3", "main|single mode", p.Pos(mainFn.Pos()), "main ends in the script runner only")
 	}
+}
+
+// c18Worlds (R4): the decision logic of the command is small enough to be evaluated outright. The conditions of main and of the
+// flag-parsing function that test the -e text against "" or the number of positional arguments against a constant are
+// evaluated for each of the six situations (-e given or not) x (0, 1, 2 positional arguments); every other condition takes both
+// branches. In each situation exactly the right things must be reachable: the prompt only without -e and without arguments, the
+// script runner otherwise; the file name taken from the first argument (and the script's arguments from the rest) only without
+// -e and with an argument, all arguments handed to the script otherwise; and the variable bound as `args` assigned on every
+// path. main calls the function that prepares the environment before the runner on every path.
+func c18Worlds(p *Program, r *Report, sp *ssa.Package, mainFn, runner *ssa.Function) {
+	eg := executeFlagGlobal(sp)
+	if eg == nil {
+		return
+	}
+	// the args variable: bound by Define("args", argsG)
+	var argsG *ssa.Global
+	var setup *ssa.Function
+	for _, fn := range SrcFuncs(sp) {
+		for _, b := range fn.Blocks {
+			for _, in := range b.Instrs {
+				c, ok := in.(*ssa.Call)
+				if !ok || len(c.Call.Args) != 3 || !isFuncNamed(calleeObj(c), modPath+"/env", "Env", "Define") {
+					continue
+				}
+				if k, ok := c.Call.Args[1].(*ssa.Const); !ok || k.Value == nil || k.Value.ExactString() != "\"args\"" {
+					continue
+				}
+				v := c.Call.Args[2]
+				if mi, ok := v.(*ssa.MakeInterface); ok {
+					v = mi.X
+				}
+				if u, ok := v.(*ssa.UnOp); ok {
+					if g, ok := u.X.(*ssa.Global); ok {
+						argsG, setup = g, fn
+					}
+				}
+			}
+		}
+	}
+	// atom: value of a condition in the situation (e given, n positional arguments)
+	atomVal := func(v ssa.Value, e bool, n int64) (bool, bool) {
+		bo, ok := v.(*ssa.BinOp)
+		if !ok {
+			return false, false
+		}
+		k, ok := bo.Y.(*ssa.Const)
+		if !ok || k.Value == nil {
+			return false, false
+		}
+		if u, ok := bo.X.(*ssa.UnOp); ok && u.X == ssa.Value(eg) && k.Value.ExactString() == `""` {
+			switch bo.Op {
+			case token.NEQ:
+				return e, true
+			case token.EQL:
+				return !e, true
+			}
+			return false, false
+		}
+		count := false
+		if c, ok := bo.X.(*ssa.Call); ok {
+			if isFuncNamed(calleeObj(c), "flag", "", "NArg") {
+				count = true
+			}
+			if b, ok := c.Call.Value.(*ssa.Builtin); ok && b.Name() == "len" {
+				if c2, ok := c.Call.Args[0].(*ssa.Call); ok && isFuncNamed(calleeObj(c2), "flag", "", "Args") {
+					count = true
+				}
+			}
+		}
+		if !count {
+			return false, false
+		}
+		kk := k.Int64()
+		switch bo.Op {
+		case token.LSS:
+			return n < kk, true
+		case token.LEQ:
+			return n <= kk, true
+		case token.GTR:
+			return n > kk, true
+		case token.GEQ:
+			return n >= kk, true
+		case token.EQL:
+			return n == kk, true
+		case token.NEQ:
+			return n != kk, true
+		}
+		return false, false
+	}
+	worldOf := func(fn *ssa.Function, e bool, n int64) map[ssa.Value]bool {
+		w := map[ssa.Value]bool{}
+		for _, b := range fn.Blocks {
+			for _, in := range b.Instrs {
+				if v, ok := in.(ssa.Value); ok {
+					if val, ok := atomVal(v, e, n); ok {
+						w[v] = val
+					}
+				}
+			}
+		}
+		return w
+	}
+	// classify the interesting instructions
+	var parseFn *ssa.Function
+	for _, fn := range SrcFuncs(sp) {
+		if fn == mainFn || fn.Name() == "init" || argsG == nil {
+			continue
+		}
+		for _, b := range fn.Blocks {
+			for _, in := range b.Instrs {
+				if st, ok := in.(*ssa.Store); ok && st.Addr == ssa.Value(argsG) {
+					parseFn = fn
+				}
+			}
+		}
+	}
+	type want func(e bool, n int64) bool
+	check := func(fn *ssa.Function, in ssa.Instruction, inst, what string, should want, mustReach bool) {
+		bad := ""
+		for _, e := range []bool{false, true} {
+			for _, n := range []int64{0, 1, 2} {
+				reach := worldReach(fn, worldOf(fn, e, n))[in.Block()]
+				if reach && !should(e, n) {
+					bad = fmt.Sprintf("%s is reachable with -e %s and %d positional argument(s)", what, map[bool]string{true: "given", false: "not given"}[e], n)
+				}
+				if mustReach && !reach && should(e, n) {
+					bad = fmt.Sprintf("%s is not reachable with -e %s and %d positional argument(s)", what, map[bool]string{true: "given", false: "not given"}[e], n)
+				}
+			}
+		}
+		r.Check(bad == "", "C18.R4", inst, p.Pos(instrPos(in)), "reachable in exactly the situations it is meant for (six situations evaluated)", bad+": the command then does something else than running that source with those arguments")
+	}
+	n := 0
+	// main: runner vs. anything else that feeds os.Exit
+	for _, b := range mainFn.Blocks {
+		for _, in := range b.Instrs {
+			c, ok := in.(*ssa.Call)
+			if !ok {
+				continue
+			}
+			callee := staticCallee(c)
+			if callee == nil || callee.Pkg != sp || callee.Signature.Results().Len() != 1 {
+				continue
+			}
+			n++
+			if callee == runner {
+				check(mainFn, c, "main|script runner", "the script runner", func(e bool, n int64) bool { return e || n > 0 }, true)
+			} else {
+				check(mainFn, c, "main|"+callee.Name(), callee.Name(), func(e bool, n int64) bool { return !e && n == 0 }, false)
+			}
+		}
+	}
+	// main: environment prepared before the runner
+	if setup != nil {
+		var runCall, setupCall ssa.Instruction
+		for _, b := range mainFn.Blocks {
+			for _, in := range b.Instrs {
+				if c, ok := in.(*ssa.Call); ok {
+					switch staticCallee(c) {
+					case runner:
+						runCall = c
+					case setup:
+						setupCall = c
+					}
+				}
+			}
+		}
+		if runCall != nil {
+			n++
+			r.Check(setupCall != nil && instrDominates(setupCall, runCall), "C18.R4", "main|environment prepared before the runner", p.Pos(instrPos(runCall)), "the function that creates the environment and binds args is called on every path to the runner",
+				"main reaches the script runner without having called "+setup.Name()+": the script runs without args and without the builtins (or in no environment at all)")
+		}
+	}
+	if parseFn != nil {
+		k := 0
+		for _, b := range parseFn.Blocks {
+			for _, in := range b.Instrs {
+				st, ok := in.(*ssa.Store)
+				if !ok || st.Addr != ssa.Value(argsG) {
+					continue
+				}
+				k++
+				n++
+				if _, sliced := st.Val.(*ssa.Slice); sliced {
+					check(parseFn, st, fmt.Sprintf("%s|args #%d = the arguments after the file name", parseFn.Name(), k), "taking the first argument for the file name", func(e bool, n int64) bool { return !e && n > 0 }, true)
+				} else {
+					check(parseFn, st, fmt.Sprintf("%s|args #%d = all arguments", parseFn.Name(), k), "handing every positional argument to the script", func(e bool, n int64) bool { return e || n == 0 }, true)
+				}
+			}
+		}
+		// args assigned on every path
+		blocked := func(x *ssa.BasicBlock) bool {
+			for _, in := range x.Instrs {
+				if st, ok := in.(*ssa.Store); ok && st.Addr == ssa.Value(argsG) {
+					return true
+				}
+			}
+			return false
+		}
+		reach := reachable(parseFn.Blocks[0], blocked)
+		bad := ""
+		for _, b := range parseFn.Blocks {
+			if ret, ok := b.Instrs[len(b.Instrs)-1].(*ssa.Return); ok && reach[b] {
+				bad = "the return at " + p.Pos(instrPos(ret)) + " is reached without the variable bound as args having been assigned"
+			}
+		}
+		n++
+		r.Check(bad == "", "C18.R4", parseFn.Name()+"|args assigned on every path", p.Pos(parseFn.Pos()), "every return lies behind an assignment", bad+": the script sees no arguments")
+		// the file variable: what the runner reads is a variable assigned flag.Arg(0) here
+		fileAssigned := false
+		for _, b := range parseFn.Blocks {
+			for _, in := range b.Instrs {
+				st, ok := in.(*ssa.Store)
+				if !ok {
+					continue
+				}
+				g, ok := st.Addr.(*ssa.Global)
+				if !ok || g == argsG {
+					continue
+				}
+				if c, ok := st.Val.(*ssa.Call); ok && isFuncNamed(calleeObj(c), "flag", "", "Arg") {
+					// the runner reads this variable
+					for _, rb := range runner.Blocks {
+						for _, rin := range rb.Instrs {
+							if u, ok := rin.(*ssa.UnOp); ok && u.X == ssa.Value(g) {
+								fileAssigned = true
+							}
+						}
+					}
+					n++
+					check(parseFn, st, parseFn.Name()+"|file name = first argument", "taking the first argument for the file name", func(e bool, n int64) bool { return !e && n > 0 }, true)
+				}
+			}
+		}
+		n++
+		r.Check(fileAssigned, "C18.R4", parseFn.Name()+"|file name reaches the runner", p.Pos(parseFn.Pos()), "the variable the runner reads is assigned flag.Arg(...) here", "no variable read by the script runner is assigned from flag.Arg: the file named on the command line is never the one that is read")
+	}
+	r.Floor("C18.R4", n, 7)
 }
